@@ -4,7 +4,7 @@ CONSTANTS
   NCells = 2
   Kind = "ccube"
   LabelRule = "prepend"
-  LabelStore = "local"
+  LabelStore = "shared"
 INVARIANT InBounds
 INVARIANT OneTaskPerBlock
 INVARIANT LabelIsData
